@@ -8,6 +8,7 @@ mod c19;
 mod ser;
 mod lay;
 mod kan;
+mod kandyn;
 mod kanseq; // [seq]
 mod kall;
 mod c01;
@@ -111,6 +112,7 @@ fn main() {
                     "C02" | "C14" | "C01" | "C18" => kan::eval_free(&l2),
                     "KALL" => kan::eval(&l2),
                     "C13" => c13::eval(&l2),
+                    "C19" if l2.starts_with("KAN ") => kan::eval(&l2), // composed model
                     "C19" => c19::eval(&l2),
                     "C04" => c04::eval(&l2),
                     "LALL" | "C05" | "C06" | "C17" | "C08" | "C09" => lay::eval(&l2),
@@ -148,6 +150,7 @@ fn main() {
                     "C14" if l2.starts_with("KOT ") => c14::expand_kot(&l2), // C14v2
                     "C08" => c08::expand(&l2),
                     "C12" if l2.starts_with("KAN ") => kan::expand(&l2), // [seq]
+                    "C19" if l2.starts_with("KAN ") => kan::expand(&l2), // [dyn]
                     "C10" => {
                         if l2.starts_with("KAN ") {
                             kan::expand(&l2)
